@@ -199,7 +199,7 @@ class CubeRecorder:
                     ev["w"] = [rat(case.weights["w"])] * n
                     ev["wvalid"] = [True] * n
                 else:
-                    ev["w"] = [rat(x) for x in case.weights["w"]]
+                    ev["w"] = [rat(x) for x in case.weights.get("w_event", case.weights["w"])]
                     ev["wvalid"] = [bool(b) for b in case.weights["valid"]]
             if exc is None and shapeok:
                 self._cells(ev, case, vals_arr[j] if j else vals_arr, None if validity is None else (validity[j] if j else validity),
